@@ -235,6 +235,35 @@ fn run_prog(inss: &[&str]) -> Option<String> {
     Some(format!("{}\t{}", vals.join(" "), can.join(" ")))
 }
 
+/// `progcmp`: run the instructions, then compare the last two registers (identical semantics)
+fn run_prog_cmp(inss: &[&str]) -> Option<String> {
+    let mut regs: Vec<Float> = Vec::new();
+    for i in inss {
+        let v = prog_step(&regs, i)?;
+        regs.push(v);
+    }
+    if regs.len() < 2 {
+        return None;
+    }
+    let a = &regs[regs.len() - 2];
+    let b = &regs[regs.len() - 1];
+    if a.get_semantics() != b.get_semantics() {
+        return None;
+    }
+    #[allow(clippy::eq_op)]
+    Some(format!(
+        "{} {} {} {} {} {} {} {}",
+        show_ord(a.partial_cmp(b)),
+        b01(a < b),
+        b01(a <= b),
+        b01(a > b),
+        b01(a >= b),
+        b01(a == b),
+        show_flt(&a.min(b)),
+        show_flt(&a.max(b))
+    ))
+}
+
 fn big_op(op: &str, a: &[&str]) -> Option<String> {
     let same = |v: Vec<String>| all_same(&v);
     match (op, a) {
@@ -393,6 +422,9 @@ fn handle(t: &[&str]) -> Option<String> {
     }
     if !t.is_empty() && t[0] == "prog" {
         return run_prog(&t[1..]);
+    }
+    if !t.is_empty() && t[0] == "progcmp" {
+        return run_prog_cmp(&t[1..]);
     }
     match t {
         ["oper", op, s, a, b] => {
